@@ -99,6 +99,9 @@ func (e *Enc) Ref(s string) {
 	e.tok(strconv.Itoa(i))
 }
 
+// Table returns the strings written with Ref so far, in index order.
+func (e *Enc) Table() []string { return e.table }
+
 // Strs writes a list of byte strings.
 func (e *Enc) Strs(xs []string) {
 	e.Int(len(xs))
